@@ -17,7 +17,7 @@ import (
 func init() {
 	register(&property{
 		ID:          "C15",
-		Explanation: "Static decision of structural conditions of Caddyfile/JSON equivalence: (R1) documented grammar <-> parser: for every Caddyfile unmarshaller with a 'Syntax:' block, the option keywords documented at block depth 1 equal the labels its option switch / comparisons accept; (R2) custom JSON codecs (not, tls, http, quic matchers) marshal and unmarshal one and the same field; (R3) every exported field of every configuration struct has a JSON tag that is '-' or 'name,omitempty' with names unique per struct (re-serialising adds nothing); (R4) determinism: code reachable from Caddyfile parsing appends to no slice and writes no output inside a range over a map unless the result is sorted or itself a map; (R5) every module type is registered in an init() and imports.go blank-imports every module package; (R6) no clobbering: inside the option loop of an unmarshaller, a configuration sub-object held in a pointer field is replaced by a new object only on the edge where that field was found nil; (R7) servers merged from several global layer4 blocks get fresh keys (the counter starts at the number of existing servers).",
+		Explanation: "Static decision of structural conditions of Caddyfile/JSON equivalence: (R1) documented grammar <-> parser: for every Caddyfile unmarshaller with a 'Syntax:' block, the option keywords documented at block depth 1 equal the labels its option switch / comparisons accept; (R2) custom JSON codecs (not, tls, http, quic matchers) marshal and unmarshal one and the same field; (R3) every exported field of every configuration struct has a JSON tag that is '-' or 'name,omitempty' with names unique per struct (re-serialising adds nothing); (R4) determinism: code reachable from Caddyfile parsing appends to no slice and writes no output inside a range over a map unless the result is sorted or itself a map; (R5) every module type is registered in an init() and imports.go blank-imports every module package; (R6) no clobbering: inside the option loop of an unmarshaller, a configuration sub-object held in a pointer field is replaced by a new object only on the edge where that field was found nil; (R7) servers merged from several global layer4 blocks get fresh keys (the counter starts at the number of existing servers). Added: (R8) a field assigned the result of append appends to that same field; (R9) keyword shortcuts are compared on the token after a one-character prefix was stripped.",
 		NotDecided:  "Semantic equality of the adapted JSON with an abstract configuration for all generated Caddyfiles; that provisioning succeeds for every generated configuration; argument-level grammar (counts and value syntax of option arguments).",
 		Run:         runC15,
 	})
